@@ -36,6 +36,7 @@ type runCtx struct {
 	caseType  string
 	checkFn   string
 	cases     []string // Coq terms
+	defs      []string // Coq definitions every shard needs (emitted before the cases)
 	side      []sideCase
 	consts    []string // Coq boolean assertions on constants
 	extra     map[string]interface{}
@@ -68,6 +69,9 @@ func (c *runCtx) flush() error {
 			for i, a := range c.consts {
 				fmt.Fprintf(f, "Definition const_%d : bool := Eval vm_compute in (%s).\nPrint const_%d.\n", i, a, i)
 			}
+		}
+		for _, d := range c.defs {
+			fmt.Fprintln(f, d)
 		}
 		for i := start; i < end; i++ {
 			fmt.Fprintf(f, "Definition c%d : %s := %s.\n", i, c.caseType, c.cases[i])
